@@ -410,6 +410,7 @@ func checkC10(c *Check) {
 	c10NoMetaStoreAfterBody(c, "R9")
 	c10NoPooledBuffer(c, "R10")
 	c10EnvelopeIsValidUTF8(c, "R11")
+	c02ReportID(c, "R13")
 
 	// ---- R3e: per-message flags are finalised after MAIL (TLS-Required override at DATA, quarantine by the checks), so
 	// every layer down to the spool must keep the very metadata object it was given
